@@ -1,12 +1,12 @@
 """C14 catalogue integrity: per-class constructor/init_var obligations (ctorcheck) + catalogue registration list (get_list_mms contract)."""
 import os, time, json
-import ctorcheck, regcheck
+import ctorcheck, regcheck, apicheck
 from common import *
 
 TRUSTED = ['see C11 (store functions executed from their extracted bodies over the reference containers of lib/vstore.h, IEEE double)',
            'documented dimension = the <n>d token of the class name, else the table DOC_DIM in vf/ctorcheck.py',
            'std::string semantics of lib/vstr.h reference bodies for masa_map on the concrete catalogue names',
-           'both scalar instantiations share the template text (C++ semantics); that every documented evaluator is actually overridden and returns a finite value at the defaults is NOT covered here (floating-point evaluation / overload resolution)']
+           'both scalar instantiations share the template text (C++ semantics); that every documented evaluator returns a finite value at the defaults is NOT covered here (floating-point evaluation); overriding is covered as: arity of each declared evaluator fits the dimension (ctorcheck e) and each API forwarder reaches the same-named evaluator'] + apicheck.TRUSTED_API
 
 def run(tier, seed):
     t0 = time.time()
@@ -18,14 +18,24 @@ def run(tier, seed):
     res = regcheck.run_jobs(d, jobs, tier)
     r_dis, r_per, r_samples = regcheck.account(rep, res, info)
     n_dis += r_dis
+    # reachability through the documented entry points: every masa_eval_* forwarder reaches the evaluator of the same field and arity of the selected object
+    abase = os.path.join(d, 'api')
+    a_per, a_samples = [], []
+    if not os.environ.get('VF_ONLY') or os.environ['VF_ONLY'].startswith('api'):
+        ajobs, anot, ainfo = apicheck.build({'forwarders'}, abase, only=os.environ.get('VF_ONLY'))
+        ares = apicheck.run_jobs(ajobs, abase, tier)
+        a_dis, a_per, a_samples = apicheck.account(rep, ares, abase)
+        n_dis += a_dis
+        nu2 = nu2 + ['%s: %s' % x for x in anot]
     cov = {'obligations': n_dis + len(rep.violations) + len(rep.undecided) + len(rep.known_hits), 'discharged': n_dis,
            'checker_cmd': 'goto-cc | goto-instrument --dfcc | cbmc (SAT, constants propagate) per class; see per_function', 'trusted_base': TRUSTED,
-           'functions_under_contract': [p['function'] for p in per + r_per], 'functions_not_under_contract': not_under + nu2,
-           'per_function': per + r_per, 'catalogue': cat, 'bounded': [], 'samples': (samples + r_samples) or [{'note': 'nothing discharged'}],
+           'functions_under_contract': [p['function'] for p in per + r_per + a_per], 'functions_not_under_contract': not_under + nu2,
+           'per_function': per + r_per + a_per, 'catalogue': cat, 'bounded': [], 'samples': (samples + r_samples + a_samples[:1]) or [{'note': 'nothing discharged'}],
            'explanation': 'for each of the catalogue classes (except the two fixtures and the macro-registered power-law class): constructor + init_var extracted and executed '
                           'with the extracted store functions: (a) every name registered once, (b) sanity_check()==0, (c) init_var()==0, (d) init_var restores all values from any state, '
                           '(e) dimension literal == documented dimension and evaluator arities fit, (f) each mmsname is its own masa_map normal form (extracted masa_map executed on it), names unique; '
-                          'get_list_mms allocates exactly one object per catalogue entry.'}
+                          'get_list_mms allocates exactly one object per catalogue entry; every masa_eval_* forwarder of masa_core.cpp calls the evaluator of the same field and arity on the selected object '
+                          '(forwarder contracts generated from the naming convention, as in C15).'}
     write_evidence('C14', tier, seed, 'proof', cov, TRUSTED, time.time() - t0, len(rep.violations))
     print('C14: %d class/catalogue obligations groups, %d obligations discharged, %d violations, %d undecided (%.1fs)' % (len(per) + len(r_per), n_dis, len(rep.violations), len(rep.undecided), time.time() - t0))
     return rep.finish()
